@@ -1066,8 +1066,11 @@ class Interp:
             if (a is None and isinstance(b, S) and b.ty in ('bytes', 'int', 'str', 'bool')) or \
                (b is None and isinstance(a, S) and a.ty in ('bytes', 'int', 'str', 'bool')):
                 return name == 'is not'
-        if name in ('in', 'not in') and isinstance(b, (list, tuple)) and not is_conc(b):
-            pass
+        if name in ('in', 'not in') and isinstance(b, (list, tuple, dict, frozenset)) and len(b) == 0:
+            return name == 'not in'
+        if name in ('in', 'not in') and isinstance(b, (list, tuple)) and not is_conc(b) and isinstance(a, S) and any(isinstance(x, S) and x.t == a.t for x in b):
+            # the very same object is an element of the sequence (identity implies membership)
+            return name == 'in'
         if name in ('in', 'not in') and isinstance(b, (list, tuple, dict, frozenset, range)) and is_conc(b) and isinstance(a, S):
             return ('cmp', name, a.t, ('tuple',) + (tuple(b) if not isinstance(b, dict) else tuple(b.keys())))
         return ('cmp', name, term(a), term(b))
@@ -1257,7 +1260,10 @@ class Interp:
         if mod == 'int' and name == 'from_bytes':
             order = args[1] if len(args) > 1 else kwargs.get('byteorder', 'big')
             if is_conc(args[0]) and is_conc(order):
-                return int.from_bytes(args[0], order)
+                try:
+                    return int.from_bytes(args[0], order)
+                except Exception as e:
+                    raise AnalysisError('int.from_bytes on constants fails: %r' % e)
             return S(('bytes2int', term(args[0]), term(order)), 'int')
         if mod == 'int' and name == 'to_bytes' and len(args) >= 2:
             order = args[2] if len(args) > 2 else kwargs.get('byteorder', 'big')
@@ -1338,6 +1344,26 @@ class Interp:
             st.heap.update(merged.heap)
         return self.result_value(rets, base_pc_len=base_len)
 
+    def _sort_order(self, seq, key, reverse, st):
+        """indices of ``seq`` in sorted order for key=<lambda term> (None: the keys are not all constants)"""
+        if not (isinstance(key, S) and isinstance(key.t, tuple) and key.t[0] == 'lambda'):
+            return None
+        lam = ast.parse(key.t[1], mode='eval').body
+        if len(lam.args.args) != 1 or lam.args.defaults:
+            return None
+        keys = []
+        for el in seq:
+            env = dict(st.env)
+            env[lam.args.args[0].arg] = el
+            k = self.eval(lam.body, State(env, st.heap, list(st.pc)))
+            if not is_conc(k):
+                return None
+            keys.append(k)
+        try:
+            return sorted(range(len(keys)), key=lambda i: keys[i], reverse=reverse)
+        except TypeError as e:
+            raise AnalysisError('sort keys not comparable: %r' % e)
+
     def call_method(self, base, name, args, kwargs, st, node):
         if isinstance(base, Model):
             r = base.call_method(self, name, args, kwargs, st, node)
@@ -1386,6 +1412,20 @@ class Interp:
                         self._exit('raise', st, S(('call', 'IndexError', (), ())), node)
                         raise _AlwaysRaises()
                     raise AnalysisError('pop from list fails')
+            if name == 'sort' and not args and set(kwargs) <= {'key', 'reverse'} and isinstance(kwargs.get('reverse', False), bool):
+                if 'key' in kwargs:
+                    order = self._sort_order(base, kwargs['key'], kwargs.get('reverse', False), st)
+                elif all(is_conc(x) for x in base):
+                    try:
+                        order = sorted(range(len(base)), key=lambda i: base[i], reverse=kwargs.get('reverse', False))
+                    except TypeError as e:
+                        raise AnalysisError('list elements not comparable: %r' % e)
+                else:
+                    order = None
+                if order is None:
+                    raise AnalysisError('list.sort() with keys that are not constants')
+                base[:] = [base[i] for i in order]
+                return None
             if name == 'index' and len(args) == 1:
                 for i, x in enumerate(base):
                     if _vals_equal(x, args[0]):
@@ -1488,6 +1528,11 @@ class Interp:
                 names = [x.t[1] for x in spec]
             if names is not None:
                 return isinstance(args[0], tuple(tymap[n] for n in names))
+            # numbers.Number / numbers.Integral: the abstract numeric classes of the standard library
+            if isinstance(spec, S) and isinstance(spec.t, tuple) and spec.t[0] == 'attr' and spec.t[1] == ('global', 'numbers') and spec.t[2] in ('Number', 'Integral', 'Real') \
+                    and not isinstance(args[0], (list, dict)):
+                import numbers as _numbers
+                return isinstance(args[0], getattr(_numbers, spec.t[2]))
             # a builtin constant is never an instance of a class defined in the package
             specs = list(spec) if isinstance(spec, tuple) else [spec]
             if not isinstance(args[0], (list, dict)) and specs and all(
@@ -1541,29 +1586,15 @@ class Interp:
             if not ts:
                 return name == 'all'
             return S(('bool', 'and' if name == 'all' else 'or', tuple(ts)), 'bool')
-        if name in ('sorted', 'min', 'max') and len(args) == 1 and isinstance(args[0], (list, tuple)) and is_conc(args[0]) and kwargs and set(kwargs) <= {'key', 'reverse'} \
-                and isinstance(kwargs.get('key'), S) and isinstance(kwargs['key'].t, tuple) and kwargs['key'].t[0] == 'lambda' and isinstance(kwargs.get('reverse', False), bool):
-            # key=lambda over a concrete sequence: evaluate the key expression per element
-            lam = ast.parse(kwargs['key'].t[1], mode='eval').body
-            if len(lam.args.args) == 1 and not lam.args.defaults:
-                keys = []
-                for el in args[0]:
-                    env = dict(st.env)
-                    env[lam.args.args[0].arg] = el
-                    k = self.eval(lam.body, State(env, st.heap, list(st.pc)))
-                    if not is_conc(k):
-                        keys = None
-                        break
-                    keys.append(k)
-                if keys is not None:
-                    try:
-                        order = sorted(range(len(keys)), key=lambda i: keys[i], reverse=kwargs.get('reverse', False))
-                    except TypeError as e:
-                        raise AnalysisError('sort keys not comparable: %r' % e)
-                    if name == 'sorted':
-                        return [args[0][i] for i in order]
-                    if args[0]:
-                        return args[0][order[0]] if (name == 'min') != kwargs.get('reverse', False) else args[0][order[-1]]
+        if name in ('sorted', 'min', 'max') and len(args) == 1 and isinstance(args[0], (list, tuple)) and kwargs and set(kwargs) <= {'key', 'reverse'} \
+                and isinstance(kwargs.get('key'), S) and isinstance(kwargs.get('reverse', False), bool):
+            # key=lambda over a sequence of known length: evaluate the key expression per element
+            order = self._sort_order(args[0], kwargs['key'], kwargs.get('reverse', False), st)
+            if order is not None:
+                if name == 'sorted':
+                    return [args[0][i] for i in order]
+                if args[0]:
+                    return args[0][order[0]] if (name == 'min') != kwargs.get('reverse', False) else args[0][order[-1]]
         if name in ('min', 'max', 'abs', 'sum', 'sorted', 'ord', 'chr', 'pow', 'divmod', 'round', 'float', 'any', 'all', 'reversed', 'hex', 'bin', 'enumerate', 'zip') and all(is_conc(a) for a in args) and not kwargs and args:
             import builtins
             try:
